@@ -890,3 +890,74 @@ Proof.
 Qed.
 
 End ErrorProofs.
+
+(* ------------------------------------------------------------------ per-call contexts: a ghost that never drops a batch *)
+Section ContextProofs.
+Context {T R : Type}.
+Variable fetch : list T -> list R.
+Variable p : rparams.
+Notation rstate := (rstate T R).
+
+Lemma flush_step_flushed : forall c (s : rstate) c' (s' : rstate),
+  flush_step p c s = Some (c', s') -> flushed s' = flushed s \/ exists ev, flushed s' = flushed s ++ [ev].
+Proof.
+  intros c s c' s' H. destruct c; cbn [flush_step] in H; try discriminate.
+  - destruct (rp_fixed p && flock s); [discriminate|].
+    destruct (is_nil (fst (b_flush current_batch (bt s)))); inversion H; subst; [now left|right; eexists; reflexivity].
+  - destruct (Nat.ltb (reserved s) (max_items p)); inversion H; subst; now left.
+  - inversion H; subst; now left.
+  - inversion H; subst; now left.
+  - inversion H; subst; now left.
+Qed.
+
+Lemma step_flushed : forall a (s : rstate),
+  flushed (step fetch p a s) = flushed s \/ exists ev, flushed (step fetch p a s) = flushed s ++ [ev].
+Proof.
+  intros a s. unfold step. destruct (step_opt fetch p a s) as [s'|] eqn:E; [|now left].
+  destruct a; cbn [step_opt] in E.
+  - unfold adder_step in E. destruct (apc s).
+    + destruct (script s) as [|[x|] sc]; inversion E; subst; now left.
+    + inversion E; subst; now left.
+    + destruct (flush_step p PFlush s) as [[c' s1]|] eqn:F; inversion E; subst. exact (flush_step_flushed _ _ _ _ F).
+    + destruct (flush_step p (PReserve ev) s) as [[c' s1]|] eqn:F; inversion E; subst. exact (flush_step_flushed _ _ _ _ F).
+    + destruct (flush_step p (PRead ev) s) as [[c' s1]|] eqn:F; inversion E; subst. exact (flush_step_flushed _ _ _ _ F).
+    + destruct (flush_step p (PInc ev seq) s) as [[c' s1]|] eqn:F; inversion E; subst. exact (flush_step_flushed _ _ _ _ F).
+    + destruct (flush_step p (PWrite ev seq r) s) as [[c' s1]|] eqn:F; inversion E; subst. exact (flush_step_flushed _ _ _ _ F).
+  - unfold timeout_step in E. destruct (tpc s).
+    + destruct (inflight s); inversion E; subst; now left.
+    + discriminate.
+    + destruct (flush_step p PFlush s) as [[c' s1]|] eqn:F; inversion E; subst. exact (flush_step_flushed _ _ _ _ F).
+    + destruct (flush_step p (PReserve ev) s) as [[c' s1]|] eqn:F; inversion E; subst. exact (flush_step_flushed _ _ _ _ F).
+    + destruct (flush_step p (PRead ev) s) as [[c' s1]|] eqn:F; inversion E; subst. exact (flush_step_flushed _ _ _ _ F).
+    + destruct (flush_step p (PInc ev seq) s) as [[c' s1]|] eqn:F; inversion E; subst. exact (flush_step_flushed _ _ _ _ F).
+    + destruct (flush_step p (PWrite ev seq r) s) as [[c' s1]|] eqn:F; inversion E; subst. exact (flush_step_flushed _ _ _ _ F).
+  - unfold timer_fire in E. destruct (armed (bt s)); inversion E; subst; now left.
+  - unfold complete_step in E. destruct (nth_error (fetchers s) i) as [[seq ev [|]]|]; inversion E; subst; now left.
+  - unfold drain_step in E. destruct (nth_error (fetchers s) i) as [[seq ev [|]]|]; try discriminate.
+    destruct (drain_loop (S (length (items s))) (drained s) (items s) (reserved s) (out s)) as [[[d its] res] o].
+    inversion E; subst; now left.
+Qed.
+
+Lemma c_run_rc : forall acts cs, rc (c_run fetch p acts cs) = run fetch p acts (rc cs).
+Proof.
+  intros acts. induction acts as [|a acts IH]; intros cs; cbn [c_run run fold_left]; [reflexivity|].
+  unfold c_run, run in IH. rewrite IH. reflexivity.
+Qed.
+
+(* The context of a call is never consulted: the step functions are those of the context-free model (c_run_rc), and every batch
+   taken from the batcher is handed to FetchBatch with exactly one context - none is dropped because of the caller's context. *)
+Theorem context_never_drops_proof : forall (sc : list (aop T * bool)) (acts : list action),
+  let cs := c_run fetch p acts (c_init sc) in
+  rc cs = run fetch p acts (r_init (map fst sc)) /\ length (c_log cs) = length (flushed (rc cs)).
+Proof.
+  intros sc acts cs. split; [apply c_run_rc|].
+  unfold cs. generalize (@c_init T R sc) (eq_refl : length (c_log (@c_init T R sc)) = length (flushed (rc (@c_init T R sc)))).
+  induction acts as [|a acts IH]; intros c0 H0; cbn [c_run fold_left]; [exact H0|].
+  apply IH. unfold c_step. cbn [rc c_log]. rewrite app_length.
+  destruct (step_flushed a (rc c0)) as [E|[ev E]]; rewrite E.
+  - rewrite Nat.ltb_irrefl. cbn. lia.
+  - rewrite app_length. cbn [length]. replace (Nat.ltb (length (flushed (rc c0))) (length (flushed (rc c0)) + 1)) with true
+      by (symmetry; apply Nat.ltb_lt; lia). cbn [length]. lia.
+Qed.
+
+End ContextProofs.
